@@ -43,10 +43,38 @@ def seeds():
         rows.append("| %s | %s | %s | %s | %s | %s |" % (m.get("seed", os.path.basename(os.path.dirname(mp))), m.get("breaks_property", ""), (m.get("needs_to_manifest") or m.get("description") or "").replace("|", "\\|")[:260], "yes" if m.get("confirmed") else "NO", ", ".join(m.get("caught_by", [])) or ("(not evaluated yet)" if not m.get("check_results") else "**missed**"), how))
     return "\n".join(rows)
 
+def ties():
+    import tie_table
+    rows = ["| Tie module | Generated unit | Theorems (re-checked against the regenerated code on every run) |", "|---|---|---|"]
+    for mod in sorted(tie_table.TIE_THEOREMS):
+        by_unit = {}
+        for t, u in tie_table.TIE_THEOREMS[mod].items():
+            by_unit.setdefault(u, []).append(t.split(".")[-1])
+        for u, ts in sorted(by_unit.items()):
+            rows.append("| `%s` | `%s` | %d: %s |" % (mod.replace("SmVerif.", ""), u, len(ts), ", ".join("`%s`" % t for t in ts)))
+    rows.append("")
+    rows.append("| Property | Tie modules used | Tie theorems |")
+    rows.append("|---|---|---|")
+    for l in open(os.path.join(HERE, "properties.jsonl")):
+        pid = json.loads(l)["id"]
+        e = tie_table.tie_for(pid)
+        rows.append("| %s | %s | %d |" % (pid, ", ".join("`%s`" % m.replace("SmVerif.Tie.", "") for m in tie_table.PROP_MODULES.get(pid, [])) or "- (correspondence and regenerated constants only)", len(e)))
+    return "\n".join(rows)
+
+def benign():
+    rows = ["| Refactor | Property | Files / functions touched | Alarm raised | What the check printed |", "|---|---|---|---|---|"]
+    for mp in sorted(glob.glob(os.path.join(HERE, "benign", "*", "meta.json"))):
+        m = json.load(open(mp))
+        r = m.get("check_result", {})
+        note = "; ".join(n.split(":")[0] for n in r.get("tie_or_anchor_note", []))
+        summ = (r.get("summary") or [""])[0]
+        rows.append("| %s | %s | %s: %s | %s | %s |" % (m["id"], m["property"], ", ".join(m.get("files", [])), ", ".join("`%s`" % f for f in m.get("functions_touched", [])[:6]), "**YES**" if m.get("alarm") else "no", (summ.split(" audited")[-1].strip() + (" (" + note + ")" if note else "")).replace("|", "\\|")[:200]))
+    return "\n".join(rows)
+
 def main():
     p = os.path.join(HERE, "DESIGN.md")
     s = open(p).read()
-    for name, fn in (("status", status), ("findings", findings), ("seeds", seeds)):
+    for name, fn in (("status", status), ("findings", findings), ("seeds", seeds), ("ties", ties), ("benign", benign)):
         a, b = "<!-- BEGIN %s -->" % name, "<!-- END %s -->" % name
         if a in s and b in s:
             s = s[: s.index(a) + len(a)] + "\n" + fn() + "\n" + s[s.index(b):]
